@@ -508,7 +508,7 @@ def modproc_rows(pp_text, ifaces, modprocs, protos, consts):
                         size = -2
                         if sm:
                             e = re.sub(r"\bMAX_LEN\b", "32", sm.group(1), flags=re.I)
-                            if re.fullmatch(r"[\d+*\s]+", e):
+                            if re.fullmatch(r"[\d+*()\s]+", e):
                                 size = int(eval(e, {"__builtins__": {}}, {}))
                     elif dd and re.sub(r"\s+", "", dd[0]).upper() == "TYPE(C_PTR)":
                         size = 0                                  # the C function allocates, C_F_string_ptr copies
